@@ -788,7 +788,7 @@ func (in *Interp) indexAddr(base Value, idx *Term, it types.Type) Value {
 	if n == 1 {
 		return arr.E[off]
 	}
-	if n > 0 && n <= 64 && isScalarCell(arr.E[off]) {
+	if n > 0 && n <= 4096 && isScalarCell(arr.E[off]) {
 		return SymElem{arr, off, n, idx}
 	}
 	i := in.concretize(idx)
